@@ -16,6 +16,7 @@ TB = [
     "translator harness/translators/sketch.py: DEFAULTS, DEFAULT_MMHASH_SEED, the x3 multiplier, the order of the item tests of _parse_params_str, the molecule order and builder calls of build_template, ComputeParameters defaults (Rust and Python), and which of the two known shapes (repaired by 779da1d / as first found) the four D14 sites of KmerMinHashBTree have; theorem source_has_repair fails to build if they are not in the repaired shape",
     "Rust std BTreeSet/BTreeMap (insert/remove/entry/union/iteration order), serde_json, cffi marshalling; Python int()/float() on ASCII strings (non-ASCII parameter strings are outside the model)",
     "md5 is not modelled (pre-image compared; the harness applies hashlib.md5); the sequence -> hashes path is C02's model (Model/SeqToHashes.lean, hash function a parameter in the theorems, Model/Murmur3.lean in the driver): sketch_eq_direct_sequences composes it with the two sketch models, and the sketch stream's feed/names ops have the Lean driver compute every hash of every generated record itself and compare hashes, abundances and md5 with the real factory-built and directly-created sketches",
+    "hand-written decision model lean/SmVerif/Model/SketchFromfile.lean of `sketch fromfile` (requested / already done / missing / built, grouping, exits) tied to /repo by fromfile ops that run the real command in-process (CSV, FASTA files and an --already-done zip in a temp dir); the Rust path ComputeParameters -> Signature::from_params -> add_sequence/add_protein tied by rust-harness module `sketch` (native ops)",
     "hand-written decision model lean/SmVerif/Model/SketchNames.lean of _compute_individual / _compute_merged / set_sig_name (grouping of records into signatures, names, recorded file name), tied to /repo by `names` ops that run the real _execute_sketch in-process on temp FASTA files under .build/tmp",
     "Stable (max_hash_for_scaled . scaled_for_max_hash = id on the threshold) is a hypothesis of the conversion theorems; proved here by kernel evaluation for 13 common scaled values, in general it is C03's theorem for scaled <= 2^31",
 ]
@@ -32,7 +33,11 @@ RULE = ("twin stream: histories of 1..50 ops (add, add_hash_with_abundance incl.
         "through parse / factory / sig.minhash / JSON exits, and feed ops adding generated DNA (invalid characters, short records, lower "
         "case) or protein records to factory-built and directly-created sketches (the model computes the same hashes with its own "
         "Murmur3), and names ops: 1-3 FASTA files (some empty) through the real _execute_sketch in default / --name-from-first / "
-        "--singleton / --merge mode; non-trivial = a fed sketch holds >= 2 hashes; "
+        "--singleton / --merge mode, with -o / --output-dir (existing or not) / current directory, --randomize, --check-sequence, inputs in "
+        "sub-directories; fromfile ops: 1-3 -p groups, a CSV of 1-4 rows with blank cells / duplicate or blank names, genome and protein "
+        "FASTA files, an --already-done zip holding matches, near misses and strangers, through the real command_sketch.fromfile; native "
+        "ops: ComputeParameters / Signature::from_params / add_sequence / add_protein through the Rust harness (any flag combination, num "
+        "and/or scaled); every refusal is compared with its reason code (one per raise site); non-trivial = a fed sketch holds >= 2 hashes; "
         "distinct = distinct op lists")
 
 
